@@ -291,16 +291,36 @@ pub fn run_case(c: &Case) -> CaseResult {
     let ph = helper.peer;
     helper.send(Cmd::DialAddress(addr_v.clone()));
     let up = wait_until(&log, Duration::from_millis(4000), |l| connected(l, 2, &pv) && connected(l, 0, &ph));
-    ensure!(up, "C19/victim-stopped-serving/connect", "after the rogue's session an honest node cannot connect to the victim within 4 s");
+    if !up {
+        if !crate::f4::control_pair_works(case_id, c.seed) {
+            return Err(CaseFail::new("C19/harness-machine-too-busy", "a control pair of fresh nodes could not connect and exchange a request either"));
+        }
+        fail!("C19/victim-stopped-serving/connect", "after the rogue's session an honest node cannot connect to the victim within 4 s");
+    }
     helper.send(Cmd::RrSend { peer: pv, payload: rr_request(777, 0, 0, 8, 20), dial: false });
     let answered = wait_until(&log, Duration::from_millis(4000), |l| l.iter().any(|o| o.node == 2 && matches!(&o.kind, ObsKind::RrResponse { .. })));
-    ensure!(answered, "C19/victim-stopped-serving/request", "after the rogue's session the victim does not answer an honest node's request within 4 s");
+    if !answered {
+        if !crate::f4::control_pair_works(case_id, c.seed) {
+            return Err(CaseFail::new("C19/harness-machine-too-busy", "a control pair of fresh nodes could not connect and exchange a request either"));
+        }
+        fail!("C19/victim-stopped-serving/request", "after the rogue's session the victim does not answer an honest node's request within 4 s");
+    }
     helper.send(Cmd::Kad(KadCmd::AddKnownPeer(pv, vec![addr_v.clone()])));
     helper.send(Cmd::Kad(KadCmd::FindNode(crate::common::peer_from_seed(4242))));
     let looked_up = wait_until(&log, Duration::from_millis(8000), |l| l.iter().any(|o| o.node == 2 && matches!(&o.kind, ObsKind::KadEvent { query: Some(_), kind, .. } if kind == "FindNodeSuccess" || kind == "QueryFailed")));
-    ensure!(looked_up, "C19/victim-stopped-serving/kademlia", "after the rogue's session an honest node's lookup through the victim does not finish within 8 s");
+    if !looked_up {
+        if !crate::f4::control_pair_works(case_id, c.seed) {
+            return Err(CaseFail::new("C19/harness-machine-too-busy", "a control pair of fresh nodes could not connect and exchange a request either"));
+        }
+        fail!("C19/victim-stopped-serving/kademlia", "after the rogue's session an honest node's lookup through the victim does not finish within 8 s");
+    }
     let success = log.lock().iter().any(|o| o.node == 2 && matches!(&o.kind, ObsKind::KadEvent { kind, .. } if kind == "FindNodeSuccess"));
-    ensure!(success, "C19/victim-stopped-serving/kademlia", "after the rogue's session the victim's Kademlia no longer answers FIND_NODE (the honest node's lookup failed)");
+    if !success {
+        if !crate::f4::control_pair_works(case_id, c.seed) {
+            return Err(CaseFail::new("C19/harness-machine-too-busy", "a control pair of fresh nodes could not connect and exchange a request either"));
+        }
+        fail!("C19/victim-stopped-serving/kademlia", "after the rogue's session the victim's Kademlia no longer answers FIND_NODE (the honest node's lookup failed)");
+    }
     for p in crate::f4::case_panics(case_id).into_iter().filter(|p| p.thread.ends_with("-node0") || p.thread.ends_with("-node2")) {
         fail!(format!("panic@{}", p.location), "the victim panicked: {}", p.message);
     }
